@@ -82,6 +82,9 @@ def compare(suite, prefix, fields):
             ms["assignment_lines"] = ms.get("assignment_lines", 0) + 1
             if m["scope"]:
                 ms["lines_in_theorem_scope"] = ms.get("lines_in_theorem_scope", 0) + 1
+            if m.get("scope_m"):
+                # a state with linear knobs inside the hypotheses of the mixed-set theorem (C01_mixed_knobs_and_expressions)
+                ms["lines_in_mixed_knob_scope"] = ms.get("lines_in_mixed_knob_scope", 0) + 1
             if m.get("scope_f") and not m["scope"]:
                 # inside the function-task form of the theorem only (the state holds function tasks)
                 ms["lines_in_function_task_scope_only"] = ms.get("lines_in_function_task_scope_only", 0) + 1
